@@ -32,7 +32,7 @@ def joinOp : Handler := fun args =>
 def winabsOp : Handler := fun args =>
   let p := (getStr args "p").toList
   match volumeNameLen? p, isWindowsAbs? p with
-  | some n, some b => Json.mkObj [("vol", Json.num n), ("abs", Json.bool b)]
+  | some n, some b => Json.mkObj [("vol", Json.num n), ("abs", Json.bool b), ("spec", Json.bool (CV.Paths.Spec.winAbs p))]
   | _, _ => Json.mkObj [("panic", "isWindowsAbs")]
 
 def remoteOp : Handler := fun args =>
